@@ -452,7 +452,9 @@ class Ctx:
                 ob.smt2 = dump_smt2(self.pc_raw + [z3.Not(goal)])
                 from .solve import cvc5_check
 
-                r2, secs2 = cvc5_check(ob.smt2, timeout_s=max(10, self.ex.oblig_timeout_ms // 1000))
+                # generous budget: this runs only after z3 gave up, and a loaded machine must not turn a
+                # 2-second cvc5 proof into `undecided`
+                r2, secs2 = cvc5_check(ob.smt2, timeout_s=max(40, 4 * self.ex.oblig_timeout_ms // 1000))
                 if r2 == "unsat":
                     ob.status, ob.solver = "discharged", "cvc5"
                 elif r2 == "sat":
